@@ -156,6 +156,15 @@ def main():
             ck.confirmed(classify(v['clause'], v), desc, rep)
         else:
             ck.not_reproduced(v['clause'], desc, rep)
+    if ck.tier != 'quick':
+        # cross-check on the compiled code (machine integers, real wrap-around semantics) with Kani / CBMC
+        import kanirun
+        r = kanirun.run_harness('c10_numeric_cmp_is_spec', timeout_s=1800)
+        ck.obligations.append(dict(name='kani:' + r['harness'], verdict=r['verdict'], solver_s=r['solver_s'], wall_s=r['wall_s'], checks=r['checks'], covers=r['covers'],
+                                   bound='cmp = spec comparator, antisymmetry, eq <=> Equal on the compiled code for numeric-only versions (any u64; pre-release lists of 0..2 numeric identifiers)', failed=r['verdict'] != 'pass'))
+        ck.extra['kani'] = r
+        if r['verdict'] != 'pass' and not ck.violations:
+            ck.fail_inconclusive('kani %s: %s (%s) while the MIR-level run found no counterexample: the engines disagree' % (r['harness'], r['verdict'], '; '.join(r.get('failed_desc') or [])[:300]))
     ck.finish()
 
 
